@@ -19,6 +19,10 @@ import (
 
 // splitTokens cuts the text into the pieces the real scanner delivers (WS and comments included).
 func splitTokens(text string) []string {
+	return guard(5*time.Second, strings.Fields(text), func() []string { return splitTokens0(text) })
+}
+
+func splitTokens0(text string) []string {
 	sc := influxql.NewScanner(strings.NewReader(text))
 	rs := []rune(text)
 	var out []string
@@ -272,6 +276,9 @@ func timeParse(entry int, text string, limit time.Duration) (time.Duration, bool
 	}
 }
 
+// scalingStuck counts parses abandoned at their wall-clock limit (they keep running).
+var scalingStuck int
+
 func propTotalScaling(args []string) string {
 	if len(args) != 3 {
 		return "skip"
@@ -288,12 +295,24 @@ func propTotalScaling(args []string) string {
 	if f.unit == "" {
 		return "skip"
 	}
+	if scalingStuck >= 3 {
+		return "skip" // earlier families left parses running that never returned
+	}
 	small, big := scaleText(f, scaleSmall), scaleText(f, scaleSmall*scaleFactor)
 	for entry, name := range []string{"ParseQuery", "ParseStatement", "ParseExpr"} {
 		var ts []time.Duration
+		stuck := false
 		for k := 0; k < 3; k++ {
-			d, _ := timeParse(entry, small, time.Minute)
+			d, ok := timeParse(entry, small, time.Minute)
+			if !ok {
+				stuck = true
+				break
+			}
 			ts = append(ts, d)
+		}
+		if stuck {
+			scalingStuck++
+			return fmt.Sprintf("%s does not return within a minute on %d bytes: %.40q + %.40q x k + %.40q", name, len(small), f.pre, f.unit, f.post)
 		}
 		sort.Slice(ts, func(i, j int) bool { return ts[i] < ts[j] })
 		t1 := ts[0]
@@ -311,6 +330,9 @@ func propTotalScaling(args []string) string {
 			if ok && d <= allowed {
 				best = d
 				break
+			}
+			if !ok {
+				scalingStuck++
 			}
 		}
 		if best < 0 {
@@ -354,7 +376,7 @@ func init() {
 		nontrivial: func(args []string, out string) bool { return len(args[0]) > 60 }})
 	register(&stream{name: "total.query", gen: genTotalStmt, impl: implParseQuery, class: stmtClass,
 		nontrivial: func(args []string, out string) bool { return len(args[0]) > 60 }})
-	register(&stream{name: "total.scaling", gen: genTotalScaling, prop: propTotalScaling,
+	register(&stream{name: "total.scaling", gen: genTotalScaling, prop: propTotalScaling, propTimeout: 30 * time.Minute,
 		impl:       func(args []string) string { return "timed" },
 		class:      func(args []string, out string) string { return out },
 		nontrivial: func(args []string, out string) bool { return true }})
